@@ -321,6 +321,9 @@ def scenario(w):
                         nviol += 1
                         break
 
+    # ---- inside the stages: the routines a stage calls are the ones its (supplied) options select ----------
+    nviol += _check_effect(w, trace, supplied, vname)
+
     if in_worker:
         w.probe('stage_entries_in_workers', in_worker)
     w.probe('options_checked', sum(checked.values()))
@@ -339,6 +342,101 @@ def scenario(w):
         raise W.ExcludedRun('workload raised %s: %s' % (type(exc).__name__, str(exc)[:80]))
     if seen['get_next_imf'] == 0:
         raise W.HarnessError('no get_next_imf entry observed under %s (vacuity guard)' % vname)
+
+
+STOP_FN = {'sd': 'sd_stop', 'rilling': 'rilling_stop', 'fixed': 'fixed_stop'}
+INTERP_FAMILY = {'splrep': ('splrep', 'splev'), 'pchip': ('pchip', 'PchipInterpolator'),
+                 'mono_pchip': ('pchip', 'PchipInterpolator')}
+
+
+def _check_effect(w, trace, supplied, vname):
+    """Consistency between the options a stage was entered with and the routines it then calls.  Sound under
+    inlining refactors: nothing is required to be called, but what is called must be what the options select."""
+    sup_imf = supplied.get('imf_opts') or {}
+    sup_env = supplied.get('envelope_opts') or {}
+    sup_ext = supplied.get('extrema_opts') or {}
+    lib_by_parent = {}
+    for c in w.lib_calls:
+        lib_by_parent.setdefault(c['parent'], []).append(c)
+    kids = {}
+    for r in trace:
+        if r['parent'] is not None:
+            kids.setdefault(r['parent'], []).append(r)
+    n = 0
+
+    def bad(sig, msg):
+        w.violation('option-not-honoured', sig, msg)
+        return 1
+
+    for rec in trace:
+        st, b = rec['stage'], rec['bound']
+        if b is None or st not in ('get_next_imf', 'interp_envelope', 'get_padded_extrema'):
+            continue
+        names = [a['stage'] for a in _ancestors(trace, rec)]
+        if st != 'get_next_imf' and 'get_next_imf' not in names:
+            continue
+        where = 'worker process pid %d' % rec['pid'] if rec['task'] is not None else 'the calling process'
+        if st == 'get_next_imf' and 'stop_method' in sup_imf:
+            want = STOP_FN.get(b.get('stop_method'))
+            for k in kids.get(rec['id'], []):
+                if k['stage'] in STOP_FN.values():
+                    w.probe('stop_rule_calls_checked')
+                    if want is not None and k['stage'] != want:
+                        n += bad('get_next_imf|stop_method', '%s: stop_method=%r was supplied but %s was used (in %s)'
+                                 % (vname, b.get('stop_method'), k['stage'], where))
+                        break
+                    kb = k['bound'] or {}
+                    if k['stage'] == 'sd_stop' and 'sd_thresh' in sup_imf and not _eq(kb.get('sd'), b.get('sd_thresh')):
+                        n += bad('get_next_imf|sd_thresh', '%s: sd_thresh=%r was supplied but the stop rule ran with %r'
+                                 % (vname, b.get('sd_thresh'), kb.get('sd')))
+                        break
+                    if k['stage'] == 'rilling_stop' and 'rilling_thresh' in sup_imf and \
+                            not _eq([kb.get('sd1'), kb.get('sd2'), kb.get('tol')], list(b.get('rilling_thresh'))):
+                        n += bad('get_next_imf|rilling_thresh', '%s: rilling_thresh=%r was supplied but the stop rule ran with %r'
+                                 % (vname, b.get('rilling_thresh'), [kb.get('sd1'), kb.get('sd2'), kb.get('tol')]))
+                        break
+                    if k['stage'] == 'fixed_stop' and 'max_iters' in sup_imf and not _eq(kb.get('max_iters'), b.get('max_iters')):
+                        n += bad('get_next_imf|max_iters', '%s: max_iters=%r was supplied but the fixed stop rule ran with %r'
+                                 % (vname, b.get('max_iters'), kb.get('max_iters')))
+                        break
+        elif st == 'interp_envelope' and 'interp_method' in sup_env:
+            fam = INTERP_FAMILY.get(b.get('interp_method'))
+            for c in lib_by_parent.get(rec['id'], []):
+                if c['lib'] == 'interp':
+                    w.probe('interpolator_calls_checked')
+                    if fam is not None and c['fn'] not in fam:
+                        n += bad('interp_envelope|interp_method', '%s: interp_method=%r was supplied but scipy.interpolate.%s was used (in %s)'
+                                 % (vname, b.get('interp_method'), c['fn'], where))
+                        break
+        elif st == 'get_padded_extrema':
+            calls = [c for c in lib_by_parent.get(rec['id'], []) if c['lib'] == 'np' and c['fn'] == 'pad']
+            if calls and ('mag_pad_opts' in sup_ext or 'loc_pad_opts' in sup_ext):
+                loc = _pad_norm(b.get('loc_pad_opts'), LOC_DEFAULT)
+                mag = _pad_norm(b.get('mag_pad_opts'), MAG_DEFAULT)
+                for i, c in enumerate(calls):
+                    w.probe('pad_calls_checked')
+                    spec = _norm(dict(c['kwargs'], mode=c['mode']))
+                    if spec != loc and spec != mag:
+                        n += bad('get_padded_extrema|pad_opts',
+                                 '%s: padding call %d of %d used %r; the supplied options are loc_pad_opts=%r mag_pad_opts=%r (in %s)'
+                                 % (vname, i, len(calls), spec, loc, mag, where))
+                        break
+                if len(calls) > 2:
+                    w.probe('repeat_padding_seen')
+            if calls and 'pad_width' in sup_ext and isinstance(b.get('pad_width'), (int, np.integer)):
+                first = calls[0]
+                want = min(int(b['pad_width']), int(first['len'])) if first['len'] is not None else int(b['pad_width'])
+                if any(c['pad_width'] != want for c in calls):
+                    n += bad('get_padded_extrema|pad_width', '%s: pad_width=%r was supplied (%d extrema) but padding used %r'
+                             % (vname, b['pad_width'], first['len'], [c['pad_width'] for c in calls]))
+            if 'parabolic_extrema' in sup_ext:
+                for k in kids.get(rec['id'], []):
+                    if k['stage'] == '_find_extrema' and k['bound'] is not None and \
+                            bool(k['bound'].get('parabolic_extrema')) != bool(b.get('parabolic_extrema')):
+                        n += bad('get_padded_extrema|parabolic_extrema', '%s: parabolic_extrema=%r was supplied but extrema detection ran with %r'
+                                 % (vname, b.get('parabolic_extrema'), k['bound'].get('parabolic_extrema')))
+                        break
+    return n
 
 
 def _copy(v):
